@@ -15,7 +15,7 @@
         bond per attached atom), charge = sum, multiplicity = sum + 1, nested joins     (C13_one_atom_per_node and following);
      3  wedge <-> hash: the constitution is unchanged (also through nested fragments), the sign of every stereo
         action is negated and nothing else; on a planar drawing whose stereo bonds take the out-of-plane ROTATION
-        branch (plane normal +ez) or the Bold/Hash translation branch, the 3-D model of the mirrored drawing is the
+        branch (plane normal +ez), the ring branch or the Bold/Hash translation branch, the 3-D model of the mirrored drawing is the
         mirror image, so every signed volume changes sign                               (the C13_mirror_... theorems);
      4  __getitem__ is a function of (file, key): the cache only memoises              (C13_label_deterministic).
    What is NOT proved (covered by the differential run / the oracle only):
@@ -23,9 +23,7 @@
      - mean_plane (SVD): the normal is an argument; "+ez on coplanar neighbours" is a hypothesis of the mirror
        theorems, checked differentially wherever the geometric model applies;
      - stereo bonds whose centre's neighbours already left the plane z = const (accumulated displacements);
-     - the ring branch: sign * (0, 0.5, 0.75) is NOT odd under the mirror (C13_ring_branch_known: the wedge and the
-       hash model of a ring stereo centre can have the SAME handedness) -- known finding
-       C13:handedness:mirror-not-inverted:ring-bond, witness parser_demo2 / "Brevione E";
+     - (the ring branch was not mirror-odd before fix 5477cee; see C13_ring_branch_refuted_before_repair)
      - hapto centres (z of the centre is set from max - min of its neighbours: even under the mirror), excluded by
        the property;  Structure.join's geometry (C12). *)
 From Coq Require Import List ZArith NArith QArith String Bool Reals.
@@ -207,17 +205,29 @@ Example C13_mirror_nonvacuous :
   signed_volume ROps (List.nth 0 Y (vzero ROps)) (List.nth 1 Y (vzero ROps)) (List.nth 2 Y (vzero ROps)) (List.nth 3 Y (vzero ROps)) <> 0.
 Proof. exact mirror_nonvacuous. Qed.
 
-(* KNOWN FINDING (the exclusion `KRing -> False` in good_kind): the ring branch displaces by sign * (0, 0.5, 0.75);
-   the y part is odd in the sign too, so the hash model is not the mirror image of the wedge model, and a ring
-   stereo centre can come out with the same handedness for both marks *)
-Theorem C13_ring_branch_known :
-  (forall a1 a2 s1 s2, ring_moves ROps (- (1)) a1 a2 s1 s2 <> shift_mirror ROps (ring_moves ROps 1 a1 a2 s1 s2)) /\
+(* the ring branch.  BEFORE the repair (fix: commit in /repo) it displaced by sign * (0, 0.5, 0.75 | 1.5): the y part
+   was odd in the sign too, so the hash model was not the mirror image of the wedge model and a ring stereo
+   centre came out with the same handedness for both marks.  The repaired branch displaces by
+   (0, 0.5, sign * 0.75 | 1.5): it is covered by C13_mirror_equivariant (good_kind holds for KRing), and on the
+   same witness the two models now have opposite, non-zero handedness. *)
+Theorem C13_ring_branch_refuted_before_repair :
+  (forall a1 a2 s1 s2, ring_moves_before_repair ROps (- (1)) a1 a2 s1 s2 <> shift_mirror ROps (ring_moves_before_repair ROps 1 a1 a2 s1 s2)) /\
   (planar ring_witness /\
-   let Y s := run_plan ROps ring_witness ((s, KRing 0%nat 1%nat ((3%nat :: nil) :: nil) nil) :: nil) in
+   let Y s := step_shift ROps ring_witness (ring_moves_before_repair ROps s 0%nat 1%nat ((3%nat :: nil) :: nil) nil) in
    let vol Y := signed_volume ROps (List.nth 0 Y (vzero ROps)) (List.nth 1 Y (vzero ROps)) (List.nth 2 Y (vzero ROps)) (List.nth 3 Y (vzero ROps)) in
    vol (Y 1) = - (3 / 16) /\ vol (Y (- (1))) = - (3 / 16)).
-Proof. exact (conj ring_moves_not_mirror ring_branch_same_handedness). Qed.
-Print Assumptions C13_ring_branch_known.
+Proof. exact (conj ring_moves_before_repair_not_mirror ring_branch_same_handedness_before_repair). Qed.
+Print Assumptions C13_ring_branch_refuted_before_repair.
+Theorem C13_ring_branch_mirror (x : R) a1 a2 s1 s2 :
+  ring_moves ROps (- x) a1 a2 s1 s2 = shift_mirror ROps (ring_moves ROps x a1 a2 s1 s2) /\
+  good_kind (KRing a1 a2 s1 s2).
+Proof. exact (conj (ring_moves_mirror x a1 a2 s1 s2) I). Qed.
+Print Assumptions C13_ring_branch_mirror.
+Example C13_ring_branch_nonvacuous :
+  let Y s := run_plan ROps ring_witness ((s, KRing 0%nat 1%nat ((3%nat :: nil) :: nil) nil) :: nil) in
+  let vol Y := signed_volume ROps (List.nth 0 Y (vzero ROps)) (List.nth 1 Y (vzero ROps)) (List.nth 2 Y (vzero ROps)) (List.nth 3 Y (vzero ROps)) in
+  vol (Y (- (1))) = - vol (Y 1) /\ vol (Y 1) <> 0.
+Proof. exact ring_branch_opposite_handedness. Qed.
 Local Close Scope R_scope.
 
 (* ====================================================================== 4: determinism of label resolution *)
